@@ -645,6 +645,9 @@ func (e *emitter) symd(x ast.Expr, d int) string {
 	case *ast.UnaryExpr:
 		return x.Op.String() + e.symd(x.X, d+1)
 	case *ast.BinaryExpr:
+		if o, ok := fi.orient(x).(*ast.BinaryExpr); ok {
+			x = o // constants and nil on the right, however the comparison was written
+		}
 		return "(" + e.symd(x.X, d+1) + x.Op.String() + e.symd(x.Y, d+1) + ")"
 	case *ast.TypeAssertExpr:
 		if x.Type == nil {
